@@ -150,7 +150,34 @@ func structField(r *Run, st structure, t types.Type, name string) value {
 	panic(unsupported("no field " + name))
 }
 
+var tcMemoMu sync.Mutex
+var tcMemo = map[string]string{}
+
 func TModeStubs(st map[string]StubFn) {
+	st[vrtPkg+"TypeCheckFuncs"] = func(r *Run, fr *frame, fn *ssa.Function, a []value) value {
+		sk, ok1 := a[0].(string)
+		text, ok2 := a[1].(string)
+		if !ok1 || !ok2 {
+			panic(unsupported("TypeCheckFuncs on symbolic text"))
+		}
+		key := sk + "\x00" + text
+		tcMemoMu.Lock()
+		v, ok := tcMemo[key]
+		tcMemoMu.Unlock()
+		if ok {
+			return v
+		}
+		dir := r.E.SkeletonRoot + "/" + sk
+		si := loadSkeleton(dir)
+		if si.err != nil {
+			panic(unsupported(si.err.Error()))
+		}
+		v = vrt.SpliceAndCheck(dir, dir+"/setup.go", text, mapImporter(si.typPkgs))
+		tcMemoMu.Lock()
+		tcMemo[key] = v
+		tcMemoMu.Unlock()
+		return v
+	}
 	st[vrtPkg+"SlotText"] = func(r *Run, fr *frame, fn *ssa.Function, a []value) value {
 		menu := loadSkeleton(r.E.SkeletonRoot + "/" + a[0].(string)).slots[a[1].(string)]
 		if len(menu) == 0 {
